@@ -122,7 +122,6 @@ Section IdealEncryption.
     rewrite O. reflexivity.
   Qed.
 
-  Definition wf_aad (a : option bytes) : Prop := match a with Some x => wf_bytes x | None => True end.
   Hypothesis wf_a : wf_aad aad.
 
   (* c16_tamper_sym, encryption half: any change of the protected header, encrypted key, IV, AAD, or of
